@@ -36,6 +36,9 @@ def gen_cases(ctx: Ctx):
     other4 = hostile.valid_blob(hid=4, pos=(361, 17, 13), data=b"ANOTHER plaintext, protected separately", seed=99)
     for m in hostile.field_substitutions(corp[0][1], other4):
         cases.append([corp[0][0], m])
+    for k, m in enumerate(hostile.param_byte_sweep(corp[0][1])):
+        if ctx.thorough or k % 3 == 0:
+            cases.append([corp[0][0], m])
     for n, (roots, blob) in enumerate(corp):
         step = 1 if ctx.thorough else (3 if n == 0 else 17)
         k = 0
@@ -99,6 +102,14 @@ def oracles(ctx: Ctx):
                 return
             if not isinstance(out, Err):
                 same += 1
+    other = hostile.valid_blob(hid=4, symbolic=False, data=b"ANOTHER plaintext, protected separately", seed=99)
+    for m in list(hostile.param_byte_sweep(blob, both_layouts=ctx.thorough)) + list(hostile.field_substitutions(blob, other)):
+        n += 1
+        out = dec(run_impl(lambda a: e2e.impl_unprotect(a, symbolic=False), [roots, m]))
+        why = pred(None, out)
+        if why:
+            ctx.violation("failing-input", "oracle:tamper.real", {"unit": "tamper.real", "input": enc([roots, m])[-1200:], "why": why}, key="tamper.real")
+            return
     ctx.oracle_runs += n
     ctx.extra["tamper_real"] = {"flips": n, "still_same_plaintext": same}
 
